@@ -115,6 +115,7 @@ type Case struct {
 	CancelBefore bool     `json:"cancel_before,omitempty"` // context already cancelled at the call
 	Deadline     bool     `json:"deadline,omitempty"`      // ... because its deadline has passed (ctx.Err() is context.DeadlineExceeded, not context.Canceled)
 	InErr        *ErrSpec `json:"in_err,omitempty"`        // collect/transform: the input stream carries this error item
+	RtMax        int      `json:"rt_max,omitempty"`        // call option compose.WithRuntimeMaxSteps (top graph in Pregel mode only): overrides the compiled limit of the top graph, not of nested graphs
 	Fwd          *FwdSpec `json:"fwd,omitempty"`           // a forwarder case (fwd.go): G / Par unused
 }
 
@@ -152,6 +153,29 @@ func (e *ErrSpec) mk() error {
 		err = fmt.Errorf("layer %d: %w", i, err)
 	}
 	return err
+}
+
+// texts: what the error's own message says, layer by layer (the caller must still find all of it in
+// the message of the run's error).
+func (e *ErrSpec) texts() []string {
+	var t []string
+	switch e.Base {
+	case "s0":
+		t = append(t, "sentinel zero")
+	case "s1":
+		t = append(t, "sentinel one")
+	case "c0":
+		t = append(t, "custom0 #"+strconv.Itoa(e.Code))
+	case "c1":
+		t = append(t, "custom1 #"+strconv.Itoa(e.Code))
+	}
+	if e.Typed {
+		t = append(t, "ctx #"+strconv.Itoa(e.TCode)+": ")
+	}
+	for i := 0; i < e.Wraps; i++ {
+		t = append(t, "layer "+strconv.Itoa(i)+": ")
+	}
+	return t
 }
 
 func (e *ErrSpec) coq() string {
@@ -641,6 +665,7 @@ type Proj struct {
 	MsgPanic  bool `json:"msg_panic,omitempty"`
 	MsgLimit  bool `json:"msg_limit,omitempty"`
 	MsgCancel bool `json:"msg_cancel,omitempty"`
+	full      string
 }
 
 type Obs struct {
@@ -694,6 +719,7 @@ func project(err error, ctxDone error) *Proj {
 	}
 	_, p.Interrupt = compose.ExtractInterruptInfo(err)
 	msg := err.Error()
+	p.full = msg
 	if ms := rePath.FindAllStringSubmatch(msg, -1); len(ms) > 0 {
 		last := ms[len(ms)-1][1]
 		if last != "" {
@@ -845,23 +871,27 @@ func runOnce(c *Case) Obs {
 		pan              any
 	}
 	done := make(chan out, 1)
+	var opts []compose.Option
+	if c.RtMax > 0 {
+		opts = append(opts, compose.WithRuntimeMaxSteps(c.RtMax))
+	}
 	go func() {
 		var o out
 		o.pan = lib.Recover(func() {
 			switch c.Par {
 			case "invoke":
-				_, o.callErr = r.Invoke(ctx, M{"in": "x"})
+				_, o.callErr = r.Invoke(ctx, M{"in": "x"}, opts...)
 			case "stream":
 				var sr *schema.StreamReader[M]
-				sr, o.callErr = r.Stream(ctx, M{"in": "x"})
+				sr, o.callErr = r.Stream(ctx, M{"in": "x"}, opts...)
 				if o.callErr == nil {
 					o.itemErr = drain(sr)
 				}
 			case "collect":
-				_, o.callErr = r.Collect(ctx, inputStream(c))
+				_, o.callErr = r.Collect(ctx, inputStream(c), opts...)
 			case "transform":
 				var sr *schema.StreamReader[M]
-				sr, o.callErr = r.Transform(ctx, inputStream(c))
+				sr, o.callErr = r.Transform(ctx, inputStream(c), opts...)
 				if o.callErr == nil {
 					o.itemErr = drain(sr)
 				}
